@@ -237,6 +237,30 @@ def main():
         eng.explore(run_wr)
         ck.absorb(eng)
         record('%s.wrappers' % fname, True if not wbad else 'cex', 'Add/Sub/Mul/Square/Opp/One are one call of the generated leaf on (&e.x, &t1.x, &t2.x) and return the receiver; Set copies the limbs; Select(a,b,1)=a, Select(a,b,0)=b for all limbs' if not wbad else '; '.join(sorted(set(wbad))), (fname, 'wrappers'))
+        # ToBigInt: the integer whose 32-byte big-endian encoding Bytes() returns (Bytes() = arbitrary canonical encoding)
+        from sm2lib import int_input
+        engb = new_engine(prog, timeout_ms=60000)
+        engb.use_linear_abstraction()
+        curb = {}
+
+        def fake_bytes_b(e, a, ins):
+            return e.new_slice([0] * 32) if getattr(e, 'in_init', False) else e.new_slice(list(curb['cells']))
+        engb.intercepts['(*%s.%s).Bytes' % (FIAT, T)] = fake_bytes_b
+
+        def run_tb(e, T=T, M=M):
+            v, sl = int_input(e, 'v', 32, 0, M - 1)
+            curb['cells'] = e.slice_list(sl)
+            o = e.new_obj([[0, 0, 0, 0]], FIAT + '.' + T)
+            out = e.call_outcome('(*%s.%s).ToBigInt' % (FIAT, T), [Ptr(o, ())])
+            if out.kind != 'return':
+                return 'cex'
+            rv = out.values[0] if isinstance(out.values, (list, tuple)) else out.values
+            xv = models.bigval(e, rv).v
+            return e.prove_i(xv == v)[0]
+        tb = engb.explore(run_tb)
+        ck.absorb(engb)
+        record('%s.ToBigInt' % fname, True if all(x == 'proved' for x in tb) else ('cex' if 'cex' in tb else 'unknown'),
+               'ToBigInt = the integer with big-endian encoding Bytes() for every canonical encoding' if all(x == 'proved' for x in tb) else 'ToBigInt is not the integer value of Bytes()', (fname, 'ToBigInt'))
         oke, edetail, ewit = equality_obligation(prog, ck, T, M)
         record('%s.Equal' % fname, True if oke is True else oke, edetail, (fname, 'Equal'))
         if ewit is not None:
@@ -345,7 +369,7 @@ def main():
                         go_bytes(list(((a * b) % M).to_bytes(32, 'big'))), go_bytes(list(((a + b) % M).to_bytes(32, 'big'))), go_bytes(list(((a - b) % M).to_bytes(32, 'big'))),
                         go_bytes(list((pow(a, -1, M) if a else 0).to_bytes(32, 'big'))), go_bytes(list(((a * a) % M).to_bytes(32, 'big')))))
     src = '''package fiat
-import ("testing"; "bytes")
+import ("testing"; "bytes"; "math/big")
 func verifCanon(x [4]uint64, m [4]uint64) bool { for i := 3; i >= 0; i-- { if x[i] < m[i] { return true }; if x[i] > m[i] { return false } }; return false }
 func TestVerifReplay(t *testing.T) {
 	pl, nl := [4]uint64{%s}, [4]uint64{%s}
@@ -373,6 +397,7 @@ func TestVerifReplay(t *testing.T) {
 			za := 0; if bytes.Equal(c.a, make([]byte, 32)) { za = 1 }
 			if a.IsZero() != za { t.Fatalf("case %%d: field IsZero", i) }
 			if !bytes.Equal(new(SM2Element).Set(a).Bytes(), c.a) { t.Fatalf("case %%d: field Set", i) }
+			if a.ToBigInt().Cmp(new(big.Int).SetBytes(c.a)) != 0 { t.Fatalf("case %%d: field ToBigInt", i) }
 			if !bytes.Equal(new(SM2Element).Mul(new(SM2Element).One(), a).Bytes(), c.a) { t.Fatalf("case %%d: field One", i) }
 		} else {
 			a, e1 := new(SM2ScalarElement).SetBytes(c.a); b, e2 := new(SM2ScalarElement).SetBytes(c.b)
@@ -391,6 +416,7 @@ func TestVerifReplay(t *testing.T) {
 			za := 0; if bytes.Equal(c.a, make([]byte, 32)) { za = 1 }
 			if a.IsZero() != za { t.Fatalf("case %%d: scalar IsZero", i) }
 			if !bytes.Equal(new(SM2ScalarElement).Set(a).Bytes(), c.a) { t.Fatalf("case %%d: scalar Set", i) }
+			if a.ToBigInt().Cmp(new(big.Int).SetBytes(c.a)) != 0 { t.Fatalf("case %%d: scalar ToBigInt", i) }
 			if !bytes.Equal(new(SM2ScalarElement).Mul(new(SM2ScalarElement).One(), a).Bytes(), c.a) { t.Fatalf("case %%d: scalar One", i) }
 		}
 	}
